@@ -311,9 +311,9 @@ Section Correct.
   Proof.
     induction l as [|x r IH]; intros st q Hin; cbn [fa spec_from map]; [reflexivity|].
     destruct (is_T x) eqn:Hx.
-    - destruct x; try discriminate Hx. cbn [form acode]. f_equal. now apply IH.
+    - destruct x; try discriminate Hx. cbn [form acode]. apply f_equal. apply IH. exact Hin.
     - destruct (local_use st q x (first_nonT (r ++ post)) Hin Hx (ys_complete _)) as [Hr Hv].
-      rewrite Hv. f_equal. now apply IH.
+      rewrite Hv. apply f_equal. apply IH. exact Hr.
   Qed.
 
   Lemma pre_scan_spec : forall ctx, exists s0,
@@ -321,11 +321,11 @@ Section Correct.
   Proof.
     destruct ok_parts as (_ & _ & H0 & _).
     induction ctx as [|c r IH]; cbn.
-    - exists 0. repeat split; [apply rows_pos | exact H0].
+    - exists 0. split; [reflexivity|]. split; [apply rows_pos | exact H0].
     - destruct (is_T c) eqn:Hc.
       + destruct c; try discriminate Hc. rewrite code_T. exact IH.
       + rewrite (code_notT _ Hc). destruct (lookup_ok 0 c rows_pos Hc) as (e & -> & HD & Hn).
-        exists (e_next e). repeat split; [exact Hn|].
+        exists (e_next e). split; [reflexivity|]. split; [exact Hn|].
         destruct (local_use 0 None c None H0 Hc (or_introl eq_refl)) as [Hr _]. now rewrite HD in Hr.
   Qed.
 
